@@ -53,8 +53,13 @@ ExtCountRule(s, e, refcnt, mode) ==
 \* raised earlier outside any continue; each exactly once (as a bag: the statement fixes no order)
 CountIn(seq, x) == Cardinality({i \in DOMAIN seq : seq[i] = x})
 SameBag(a, b) == \A x \in {a[i] : i \in DOMAIN a} \cup {b[i] : i \in DOMAIN b} : CountIn(a, x) = CountIn(b, x)
+\* a line that reads a temporary whose declaration was never executed carries a marker word: by the time the host
+\* has that line, it has been told - through the handler, the error result or the readable lists - about that temporary
+\* (an absolute rule: a warning lost in every run of the build is invisible to a comparison between runs)
+Raised(s, e) == \A i \in DOMAIN e.marks : e.marks[i] \in s.warned \cup {e.wvars[j] : j \in DOMAIN e.wvars}
 MsgRule(s, e, refnew) ==
-  IF e.op = "cont" THEN (IF SameBag(e.msgs, s.pmsgs \o refnew) THEN "" ELSE "Msgs.delivery")
+  IF e.op \in {"cont", "turn"} /\ ~Raised(s, e) THEN "Msgs.warning_never_raised"
+  ELSE IF e.op = "cont" THEN (IF SameBag(e.msgs, s.pmsgs \o refnew) THEN "" ELSE "Msgs.delivery")
   ELSE IF e.msgs # <<>> THEN "Msgs.delivery_outside_continue" ELSE ""
 
 \* C13 without a handler: an error makes that continue return Err, stays readable and stops the story; a
@@ -62,7 +67,8 @@ MsgRule(s, e, refnew) ==
 NoHandlerRule(s, e, ref) ==
   LET newerr == e.o.nerr > s.last.nerr
       newwarn == e.o.nwarn > s.last.nwarn IN
-  IF e.msgs # <<>> THEN "Msgs.no_handler_delivery"
+  IF e.op \in {"cont", "turn"} /\ ~Raised(s, e) THEN "Msgs.warning_never_raised"
+  ELSE IF e.msgs # <<>> THEN "Msgs.no_handler_delivery"
   ELSE IF e.op = "cont" /\ newerr /\ e.res # "err" THEN "Msgs.error_not_reported"
   ELSE IF e.op = "cont" /\ ~newerr /\ s.last.nerr = 0 /\ e.res = "err" /\ s.last.canB THEN "Msgs.err_without_error"
   ELSE IF e.o.nerr < s.last.nerr THEN "Msgs.error_forgotten"
